@@ -116,7 +116,7 @@ class Check:
 
     # ------------------------------------------------------------------ TLC
     def tlc(self, module, cfg=None, workers=None, heap="8g", timeout=1800, env=None, extra=(),
-            name=None, coverage=True, deque=False):
+            name=None, coverage=False, deque=False):
         """Run TLC on spec/<module>.tla with spec/<cfg>. Returns TlcResult.
         Spec errors raise ToolError unless allow_violation is used by the caller (check r.ok)."""
         cfg = cfg or (module + ".cfg")
